@@ -154,6 +154,16 @@ def judge_stream(msgs, seps, p, case_of, FILTERS=None):
                             case_of(info_only, fi), '%r' % (e,), observed=stream)
                 continue
             p.outcome((len(msgs), len(want), info_only, fi, tuple(sorted(set(seps)))[:3]))
+            if expr is None:
+                # the same stream handed over as a bytearray (a mutable byte string): the same messages, the same bytes
+                try:
+                    got_ba = [(bytes(g[0]), g[1]) for g in scan(bytearray(stream), info_only, expr)]
+                except Exception as e:
+                    got_ba = 'raises %r' % (e,)
+                if got_ba != [(bytes(g[0]), g[1]) for g in got]:
+                    p.violation('bytearray-stream|%s' % ('info' if info_only else 'full'), case_of(info_only, fi),
+                                'the stream given as bytearray: %s' % (got_ba if isinstance(got_ba, str) else [len(g[0]) for g in got_ba]),
+                                observed=stream)
             if [g[0] for g in got] != [w[1] for w in want]:
                 p.violation('messages|%s|%s' % ('info' if info_only else 'full', 'filter' if expr else 'nofilter'),
                             case_of(info_only, fi),
